@@ -46,6 +46,18 @@ def lean_requests(c):
 def judge(ctx, c, answers):
     T = enc.build_tm(c['T'])
     before = enc.canon_tm(T)
+    # the DEFAULT budget (1000) is a property of the TM functions: another module's setting must not change it
+    from gambatools.global_settings import GambaTools
+    old_knob = GambaTools.pda_epsilon_closure_max_iterations
+    GambaTools.pda_epsilon_closure_max_iterations = 7
+    try:
+        for w in c['words'][:3]:
+            g = call(tm_accepts_word, T, w)
+            e = oracles.tm_run(T, w, 1000)[0]
+            if g != {'ok': e}:
+                ctx.violation('tm-verdict-default-budget', {'case': dict(c, words=[w], budgets=[1000]), 'impl': g, 'expected': e})
+    finally:
+        GambaTools.pda_epsilon_closure_max_iterations = old_knob
     it = iter(answers)
     res = []
     for w in c['words']:
